@@ -815,6 +815,8 @@ class Stepper(Machine):
             st = self.put_th(st, who, t)
         elif call is not None:
             c = self.classify(call, fr, st)
+            if n.kind == "with" and c[0] != "inline" and any(isinstance(t_, FuncInfo) for t_ in self.prog.resolve_call(self.func(fr.fq), call)):
+                raise AnalysisError(f"{self.loc(fr)}: the context manager of this `with` is repository code that is not a generator-based manager; its enter/exit effects are not modelled")
             if c[0] == "inline":
                 callee: FuncInfo = c[1]
                 g = self.m.cfg(callee)
@@ -828,7 +830,7 @@ class Stepper(Machine):
                         env[kw.arg] = self.ev(kw.value, fr, st)
                 mode = "cm" if n.kind == "with" and "contextmanager" in callee.decorators else "call"
                 if n.kind == "with" and mode != "cm":
-                    return [(self._advance(st, who, n), None)]
+                    raise AnalysisError(f"{self.loc(fr)}: `with {callee.qualname.split(':')[1]}()` is not a generator-based context manager (and could not be read as one); its enter/exit effects are not modelled")
                 env["#argdeps"] = ("U", self.deps_of(list(env.values())))
                 new = Frame(callee.qualname, g.entry.idx, tuple(sorted(env.items())), c[2], ("stmt",), mode)
                 st2 = st
